@@ -126,6 +126,10 @@ def _gen_base(w, n, big=False):
             ops[-1][2] = [qgen.rand_angle(w) for _ in range(3 if nm == "CRot" else 1)]
         else:
             ops.append(_wrap(w, [w.choice(ROT1), [wires[0]], [qgen.rand_angle(w)]], wires))
+    if n > 1 and w.random() < 0.12:
+        a, b = w.sample(wires, 2)
+        ops.insert(w.randrange(len(ops) + 1), ["prodop", [w.choice(ROT1), [a], [qgen.rand_angle(w)]],
+                                               [w.choice(ROT1), [b], [qgen.rand_angle(w)]]])
     mps = _gen_mps(w, wires, big)
     return {"ops": ops, "mps": mps, "shots": None, "trainable": None}
 
@@ -184,6 +188,9 @@ def _param_sites(ops, path=()):
 
 
 def _param_sites_op(o, path):
+    if o[0] == "prodop":
+        yield from _param_sites_op(o[1], path + ("a",))
+        return
     if o[0] in ("adjoint", "pow", "ctrl"):
         yield from _param_sites_op(o[1], path + ("w",))
     elif o[2]:
@@ -191,6 +198,8 @@ def _param_sites_op(o, path):
 
 
 def _replace_leaf(o, fn):
+    if o[0] == "prodop":
+        return ["prodop", _replace_leaf(o[1], fn), o[2]]
     if o[0] in ("adjoint", "pow", "ctrl"):
         return [o[0], _replace_leaf(o[1], fn)] + list(o[2:])
     return fn(o)
@@ -239,7 +248,7 @@ def _mutate(w, tape, n):
             o = t["ops"][i]
             t["ops"][i] = ["ctrl", o[1], list(reversed(o[2]))] + list(o[3:])
         else:
-            cands = [i for i, o in enumerate(t["ops"]) if o[0] not in ("adjoint", "pow", "ctrl")
+            cands = [i for i, o in enumerate(t["ops"]) if o[0] not in ("adjoint", "pow", "ctrl", "prodop")
                      and not isinstance((o[2] or [0])[0], dict) and len(set(wires) - set(o[1])) >= 2]
             if cands:
                 i = w.choice(cands)
@@ -296,7 +305,7 @@ def _mutate(w, tape, n):
         return t, kind
     if kind == "wrap" and t["ops"]:
         i = w.randrange(len(t["ops"]))
-        if t["ops"][i][0] not in ("adjoint", "pow", "ctrl"):
+        if t["ops"][i][0] not in ("adjoint", "pow", "ctrl", "prodop") and not isinstance((t["ops"][i][2] or [0])[0], dict):
             t["ops"][i] = _wrap(w, t["ops"][i], wires)
         return t, kind
     if kind == "unwrap":
@@ -367,6 +376,39 @@ def gen_case(streams, tier):
                 tr = sorted(w.sample(range(npar), w.randint(0, npar))) if npar else []
                 pool.append(dict(pool[j], shots=None, trainable=tr, derive={"from": j, "trainable": tr}))
                 mutators["derived_copy_trainable"] = 1
+    if w.random() < 0.2 and n > 1:
+        # a tape made with qp.map_wires from a tape OBJECT that was executed (fingerprinted) before
+        j = w.randrange(len(pool))
+        if not pool[j].get("derive") and not pool[j].get("shots") and not any(
+                isinstance((leaf[2] or [0])[0], dict) for _, leaf in _param_sites(pool[j]["ops"])):
+            perm = list(range(n))
+            w.shuffle(perm)
+            wmap = {str(a): b for a, b in zip(range(n), perm)}
+            from checks import qgen as _qg
+            im = {a: b for a, b in zip(range(n), perm)}
+            try:
+                mapped = dict(pool[j], ops=[_qg.map_op_wires(o, im) for o in pool[j]["ops"]],
+                              mps=[_qg.map_mp_wires(m, im) for m in pool[j]["mps"]],
+                              derive={"from": j, "map_wires": wmap})
+                pool.append(mapped)
+                mutators["derived_map_wires"] = 1
+                entry = "execute"
+            except (ValueError, KeyError):
+                pass
+    if w.random() < 0.15:
+        # trainable indices [.., k] without shots next to trainable indices [..] with k shots
+        cands = [i for i, t in enumerate(pool) if not t.get("shots") and not t.get("derive")
+                 and all(m[0] in ("expval", "var", "probs") for m in t["mps"])
+                 and sum(len(leaf[2]) for _, leaf in _param_sites(t["ops"])) >= 2]
+        if cands:
+            j = w.choice(cands)
+            npar = sum(len(leaf[2]) for _, leaf in _param_sites(pool[j]["ops"]))
+            k = w.randint(1, npar - 1)
+            head = sorted(w.sample(range(k), w.randint(0, k)))
+            pool.append(dict(pool[j], shots=k, trainable=head))
+            pool.append(dict(pool[j], shots=None, trainable=head + [k]))
+            mutators["shots_vs_trainable"] = 1
+            entry = "execute"
     if store["kind"] == "true" and entry == "qnode":
         entry = "execute"  # cache=True builds a new cache per QNode call: nothing is shared
     calls = []
@@ -447,7 +489,10 @@ def run_case(case):
             d = spec.get("derive")
             if d:
                 src = tape_obj(d["from"])
-                if "trainable" in d:
+                if "map_wires" in d:
+                    src.hash  # the source has been fingerprinted, as after an execution
+                    (objs[i],), _ = qp.map_wires(src, {int(a): b for a, b in d["map_wires"].items()})
+                elif "trainable" in d:
                     objs[i] = src.copy(trainable_params=list(d["trainable"]))
                 else:
                     objs[i] = src.copy(shots=d["shots"])
